@@ -76,7 +76,30 @@ def _dump(payload, sub):
         d = dump_to_path('out', **opts)
     else:
         d = dump_to_zip('out.zip', **opts)
-    Flow(load(({'resources': resources}, iters), strip=False), d).process()
+    links = [load(({'resources': resources}, iters), strip=False), d]
+    if payload.get('post_edit'):
+        # the flow goes on after the dumper and edits the rows in place: the package holds what *entered* the dumper
+        import datetime
+        import decimal
+
+        def edit(row):
+            for k, v in list(row.items()):
+                if isinstance(v, bool):
+                    row[k] = not v
+                elif isinstance(v, str):
+                    row[k] = v.upper() + '!'
+                elif isinstance(v, (int, decimal.Decimal)):
+                    row[k] = v + 1
+                elif isinstance(v, list):
+                    v.append('seen')
+                elif isinstance(v, dict):
+                    v['seen'] = 1
+                elif isinstance(v, datetime.datetime):
+                    row[k] = v + datetime.timedelta(days=1)
+                elif isinstance(v, datetime.date):
+                    row[k] = v + datetime.timedelta(days=1)
+        links.append(edit)
+    Flow(*links).process()
     return True
 
 
@@ -261,7 +284,7 @@ class C03(Prop):
                    'zone-aware datetimes are outside the csv/json temporal formats and are not generated']
     REAL_VS_STUB = {'real': ['dataflows dumpers + load, tabulator, tableschema, datapackage, zipfile, the file system'], 'stub': ['process environment (TZ) of the verifying process']}
     PROBES = ['json-format', 'zip-target', 'filehash-in-path', 'temporal-format-property', 'non-alphabetical-fields', 'row-key-order-differs', 'year-below-1000', 'newline-in-cell',
-              'non-bmp-unicode', 'high-precision-decimal', 'primary-key', 'padded-string', 'multi-resource']
+              'non-bmp-unicode', 'high-precision-decimal', 'primary-key', 'padded-string', 'multi-resource', 'rows-edited-after-the-dumper']
     TIERS = {'quick': dict(runs=700, wall=100, run_wall=120),
              'thorough': dict(runs=25000, wall=1700, run_wall=300)}
     SHRINK_FROZEN = ('fields',)
@@ -323,7 +346,7 @@ class C03(Prop):
             opts['add_filehash_to_path'] = True
         if custom_fmt:
             opts['temporal_format_property'] = 'outputFormat'
-        return {'tables': tabs, 'opts': opts, 'target': rng.choice(['path', 'path', 'zip']), 'padded': padded,
+        return {'tables': tabs, 'opts': opts, 'target': rng.choice(['path', 'path', 'zip']), 'padded': padded, 'post_edit': rng.random() < 0.3,
                 'tz': rng.choice([None, 'UTC', 'America/New_York', 'Asia/Kolkata', 'Pacific/Chatham'])}
 
     def execute(self, sc, ctx):
@@ -334,7 +357,7 @@ class C03(Prop):
         d = os.path.join(ctx.scratch, 'w')
         os.makedirs(d)
         os.chdir(d)
-        payload = {'tables': sc['tables'], 'opts': opts, 'target': sc.get('target', 'path'), 'padded': sc.get('padded'), 'tz': sc.get('tz')}
+        payload = {'tables': sc['tables'], 'opts': opts, 'target': sc.get('target', 'path'), 'padded': sc.get('padded'), 'tz': sc.get('tz'), 'post_edit': sc.get('post_edit')}
         r = ctx.subrun(_dump, payload)
         desc = 'target=%s opts=%s fields=%s' % (payload['target'], json.dumps(opts), json.dumps([[(f['name'], f['type']) for f in t['fields']] for t in sc['tables']])[:500])
         if r['status'] != 'ok':
@@ -372,6 +395,8 @@ class C03(Prop):
             ctx.probe('temporal-format-property')
         if sc.get('padded'):
             ctx.probe('padded-string')
+        if sc.get('post_edit'):
+            ctx.probe('rows-edited-after-the-dumper')
         if len(sc['tables']) > 1:
             ctx.probe('multi-resource')
         for t in sc['tables']:
